@@ -56,3 +56,33 @@ Definition c09_nontriv (l o : list Z) : bool :=
   match dec_dsignals (length l) l with
   | Some h => c09_wf h && existsb (fun cs => match cs with [] => false | _ => true end) (c09_model h)
   | None => false end.
+
+(* ---- bursts: a case 500 :: g :: signals publishes the signals g at a time without letting the director
+   run in between (they queue up on its channel); every queued signal is still processed on its own, so what
+   comes out per group is the concatenation of what each of its signals causes ---- *)
+Fixpoint regroup (fuel : nat) (g : nat) (o : list (list dcmd)) : list (list dcmd) :=
+  match fuel with
+  | O => []
+  | S f => match o with
+           | [] => []
+           | _ => concat (firstn g o) :: regroup f g (skipn g o)
+           end
+  end.
+Definition c09x_run (l : list Z) : list Z :=
+  match l with
+  | 500 :: g :: r =>
+      if g <=? 0 then bad_case else
+      match dec_dsignals (length r) r with
+      | Some h => enc_douts (regroup (length h) (Z.to_nat g) (c09_model h))
+      | None => bad_case end
+  | _ => c09_run l end.
+Definition c09x_check (l o : list Z) : bool :=
+  match l with
+  | 500 :: g :: r =>
+      match dec_dsignals (length r) r with
+      | Some h => implb (c09_wf h && (0 <? g))
+                    (if list_eq_dec Z.eq_dec o (enc_douts (regroup (length h) (Z.to_nat g) (c09_model h))) then true else false)
+      | None => false end
+  | _ => c09_check l o end.
+Definition c09x_nontriv (l o : list Z) : bool :=
+  match l with 500 :: _ :: r => c09_nontriv r o | _ => c09_nontriv l o end.
